@@ -387,6 +387,42 @@ def asan_cases(rng, n):
     return out
 
 
+def boundary_cases(rng, caps):
+    """pieces (one format_to call each) whose rendered text is exactly n-1, n, n+1 bytes for the buffer sizes n a
+    sink may stage short texts in (powers of two, and the size read from the source: string_fmt_stack_cap)"""
+    out = []
+    for cap in caps:
+        for n in (cap - 1, cap, cap + 1):
+            if n < 1: continue
+            w = str(n)
+            pieces = [conv('%' + w + 'd', 'i%d' % rng.choice([0, 7, -42, 123456])),
+                      conv('%-' + w + 's', 's' + hx(rnd_bytes(rng, rng.randrange(0, 5), list(range(65, 91))))),
+                      conv('%.' + w + 's', 's' + hx(rnd_bytes(rng, n + rng.randrange(0, 40), list(range(97, 123))))),
+                      conv('%0' + w + 'lx', 'i%d' % rng.getrandbits(60)),
+                      conv('%' + w + '.3f', 'f' + gen_float_bits(rng)) if n > 330 else conv('%' + w + 'c', 'i%d' % rng.randrange(33, 127)),
+                      (lit(''.join(chr(rng.randrange(97, 123)) for _ in range(n))), None),
+                      ('D', 's' + hx(rnd_bytes(rng, max(0, n - 2), list(range(97, 123)))))]
+            for k, pc in enumerate(pieces):
+                init = gen_str(rng).replace(b'\0', b'')
+                pos = rng.choice([0, len(init), rng.randrange(0, len(init) + 1)])
+                pairs = [pc]
+                if k % 3 == 1: pairs = [(lit('<'), None), pc, conv('%d', 'i%d' % n)]      # something after it: the next piece lands at pos + n
+                if k % 3 == 2: pairs = [conv('%s', 's' + hx(b'ab')), pc, ('P', None)]
+                out.append(build(pos, hx(init), pairs))
+    return out
+
+
+def staged_caps():
+    caps = [16, 32, 64, 128, 256, 512, 1024, 4096]
+    try:
+        g = open(os.path.join(vlib.COQ, 'Generated.v')).read()
+        m = re.search(r'Definition string_fmt_stack_cap : nat := (\d+)', g)
+        if m and int(m.group(1)) > 0: caps.append(int(m.group(1)))
+    except OSError:
+        pass
+    return sorted(set(caps))
+
+
 def exhaustive_one(rng):
     """every single specification over the product flags-subsets x width x precision x length x conversion
     (restricted to the combinations with a defined meaning), at the start, in the middle and at the end"""
@@ -433,7 +469,8 @@ def run(ctx):
         'flag/precision/length combinations with a meaning defined by C are used (no L, no lc/ls); arguments: Int over the full '
         'int64 range incl. INT64_MIN/MAX for l/ll/j/z/t conversions, int range (unsigned: up to 2^32-1) otherwise, Float from a grid '
         '(zeros, denormals, DBL_MAX, infinities, rounding ties) and random bit patterns without NaN, String of 0-400 bytes, raw pointers '
-        'for %p, Int/Float/String/Array/List/Tuple/Table for %$; start positions 0..length and beyond; too few / too many arguments. '
+        'for %p, Int/Float/String/Array/List/Tuple/Table for %$; start positions 0..length and beyond; too few / too many arguments; plus single pieces whose text is exactly n-1, n, n+1 bytes for n = 16..4096 '
+        '(powers of two) and the stack-buffer size read from String_Format_To. '
         'Per case three runs of print_to_with (heap String, File, recording sink) are compared with the reference: per item, libc '
         'snprintf of that ONE specification with the C value the property assigns (a whole-format printf is the concatenation, '
         'directives being independent; cross-checked by one snprintf call on the whole format whenever all its specifications take '
@@ -474,6 +511,7 @@ def run(ctx):
         d.report()
         return
     d.feed(CORPUS, 'corpus')
+    d.feed(boundary_cases(ctx.rng, staged_caps()), 'boundary')
     n = 5000 if quick else 500000
     done = 0
     while done < n:
@@ -489,6 +527,7 @@ def run(ctx):
     aenv = dict(env, ASAN_OPTIONS='detect_leaks=0:abort_on_error=1:allocator_may_return_null=1')
     da = vlib.Differential(ctx, 'format_asan', mk_impl(ha, aenv), run_model, run_spec, oracle, corr, nontrivial, split, join)
     da.feed(CORPUS, 'corpus')
+    da.feed(boundary_cases(ctx.rng, staged_caps()), 'boundary')
     da.feed(asan_cases(ctx.rng, 300 if quick else 20000))
     if not quick:
         da.feed([gen_case(ctx.rng) for _ in range(20000)])
